@@ -1,5 +1,7 @@
 package rf
 
+//gosx:file replay=engine
+
 import (
 	"strconv"
 
